@@ -1,6 +1,7 @@
 import HmsProofs.Lemmas.SimPipeline
 import HmsProofs.Lemmas.SimPureFinal
 import HmsProofs.Lemmas.SimStmtFinal
+import HmsProofs.Lemmas.SimSlots
 /-!
 # C01 (part 2) — the compiler and the VM simulate the specification semantics
 
@@ -18,7 +19,12 @@ the Go code and a concrete instance.
    the same for expressions with `&&`, `||` and `if`/`else` (jumps and labels);
 6. `compileStmts_frag`, `stmts_correct`, `compiled_stmts_correct`, `mangling_collision` —
    `let`, assignment, compound assignment, `if` statements and `while`, under the hypothesis that no identifier
-   ends in a digit (without it the statement is false: finding V26).
+   ends in a digit (without it the statement is false: finding V26);
+7. `compileFn_frag`, `fn_slots_fit`, `fn_body_correct`, `fn_run` — a whole parameterless function whose body
+   is such a statement block: what `compileFn` emits, that its slots fit the frame reserved by
+   `AddMempointer`, and that running it from its first instruction returns to the caller having
+   simulated the specification (label hygiene, relocation, renaming and the initial relation are
+   all discharged, no `Placed`/`StRel` hypothesis is left).
 -/
 namespace HmsProofs.C01VM
 open Hms.Core Hms.Core.Comp Hms.Core.VM HmsProofs.Sim
@@ -307,6 +313,12 @@ theorem pure_labels_fresh (mod : String) (ρ : String → Option String) (e : Ex
     LblInv mod lm (cpE mod ρ e lm).2 (definedLabels (cpE mod ρ e lm).1) :=
   (cpE_labels mod ρ (Frag.depthE e)).1 e lm (Nat.le_refl _)
 
+/-- **Label names are injective**: `<module>_<ident><n>` determines `(ident, n)` for digit-free
+identifiers — all identifiers `mangleLabel` is called with (`labelIdents_noDigits`). -/
+theorem label_names_injective (mod id1 id2 : String) (c1 c2 : Nat) (h1 : NoDigits id1) (h2 : NoDigits id2)
+    (h : labelName mod id1 c1 = labelName mod id2 c2) : id1 = id2 ∧ c1 = c2 :=
+  labelName_inj mod id1 id2 c1 c2 h1 h2 h
+
 /-- **Values.** `Placed`: the VM code of the current function holds `e`'s code (labels stripped,
 lowered through `lab`, `σ`) from the frame's `ip` on, and `lab` sends each label defined in it
 to its position. If the specification evaluates `e` to `v` then its state is unchanged and the
@@ -460,6 +472,12 @@ example : (match compile v26prog "main" 100 with
   decide +kernel
 end V26Witness
 
+/-- **Mangled variable names are injective** for identifiers that do not end in a digit:
+`@<module>_<ident><n>` then determines `(ident, n)`. -/
+theorem mangled_names_injective (mod x y : String) (c d : Nat) (hx : NoTrailingDigit x) (hy : NoTrailingDigit y)
+    (h : mangleName mod x c = mangleName mod y d) : x = y ∧ c = d :=
+  mangleName_inj mod x y c d hx hy h
+
 /-- **Statements on the VM.** `StRel`: level by level the specification's scopes and the
 compiler's scopes bind the same (tracked) identifiers, each mangled name's slot is a legal cell
 holding the specification's value, live names are pairwise distinct and below the current
@@ -603,5 +621,155 @@ example : ∃ k mem', execN codeL {} k vmL = .next (reach vmL 25 k [] mem') ∧
       cases v <;> simp [isInt] at hacc
       exact ⟨_, hmem, hacc⟩
 end Example6
+
+/-! ## 7. Whole functions -/
+
+/-- **`compileFn`.** For a function without parameters and annotation whose body is a block of
+statements of the fragment (no trailing expression), well scoped from the environment `fnEnv`
+(the function's top scope holding the cleanup label, around the enclosing scopes): `compileFn`
+ends in the state `fnFinal`, in which the function's entry is
+`fnCode = AddMempointer(n); <cSs …>; cleanup: AddMempointer(-n); Return` with variable count `n`;
+other functions, the scopes, the loop stack, the `try` depth and the `unsupported` flag are as
+before. -/
+theorem compileFn_frag (f2 : Nat) (fd : FnDef) (cs : CState) (bsp : Span) (bty : Ty) (stmts : List Stmt)
+    (hbody : fd.body = .mk bsp bty stmts none) (hparams : fd.params = []) (hann : fd.hasAnnotation = false)
+    (hs : Frag.okSs stmts = true) (hd : Frag.depthSs stmts ≤ f2)
+    (hws : Frag.wsSs cs.currModule stmts (fnEnv cs fd.name) = true) :
+    (compileFn (f2 + 2) fd).run cs = ((), fnFinal cs fd stmts) ∧
+    (fnFinal cs fd stmts).fns.lookup (cs.currModule, fd.name) =
+      some { name := mangleFnName cs.currModule fd.name, code := fnCode cs fd stmts,
+             cntVars := (cSs cs.currModule stmts (fnEnv cs fd.name)).2.nv } ∧
+    (∀ k, k ≠ (cs.currModule, fd.name) → (fnFinal cs fd stmts).fns.lookup k = cs.fns.lookup k) ∧
+    (fnFinal cs fd stmts).scopes = cs.scopes ∧ (fnFinal cs fd stmts).loops = cs.loops ∧
+    (fnFinal cs fd stmts).tryDepth = cs.tryDepth ∧ (fnFinal cs fd stmts).unsupported = cs.unsupported :=
+  ⟨compileFn_frag_run f2 fd cs bsp bty stmts hbody hparams hann hs hd hws, fnFinal_lookup cs fd stmts,
+   fnFinal_lookup_other cs fd stmts, (fnFinal_frame cs fd stmts).1, (fnFinal_frame cs fd stmts).2.1,
+   (fnFinal_frame cs fd stmts).2.2.1, (fnFinal_frame cs fd stmts).2.2.2.2.1⟩
+
+/-- **Slots fit the frame** (memory safety of locals): every slot `renameVariables` assigns in
+such a function is at most the `n` of its `AddMempointer(n)`, so `mp - slot` stays inside the
+cells the prologue reserved. -/
+theorem fn_slots_fit (T : List String) (cs : CState) (fd : FnDef) (stmts : List Stmt) (r : NCode)
+    (hT : ∀ x ∈ Frag.identsSs stmts, x ∈ T)
+    (hws : Frag.wsSs cs.currModule stmts (fnEnv cs fd.name) = true)
+    (hkey : cleanupKey cs.currModule fd.name ∉ T)
+    (houter : ∀ sc ∈ cs.scopes, ∀ x ∈ T, sc.lookup x = none)
+    (hrel : relocate (fnCode cs fd stmts) = some r) :
+    ∀ m ∈ varNames r, slotFn r m ≤ (cSs cs.currModule stmts (fnEnv cs fd.name)).2.nv :=
+  fn_slots_le T cs fd stmts r hT hws hkey houter hrel
+
+/-- **A whole function on the VM.** The VM is about to execute instruction 0 of the function
+(`relocateLabels` and `renameVariables` applied to `fnCode`), with a non-negative memory
+pointer and room for the frame; the specification starts the body in a fresh activation
+(`scopes = [[]]`); identifiers have no trailing digit and are not bound in the enclosing compile
+scopes. Then (`SimFn`): if the specification completes the body, the VM executes prologue, body
+(with all its jumps) and epilogue and returns to the caller's frame with operand stack, memory
+pointer, heap, output, globals and handlers as at the call; a fatal error of the specification is
+the VM's fatal interrupt; the fragment produces no other outcome (`unsupported`/`timeout` of the
+model aside). -/
+theorem fn_body_correct (cfg : Cfg) (code : Code) (lim : Limits) (T : List String) (fuel : Nat)
+    (cs : CState) (fd : FnDef) (stmts : List Stmt) (r : NCode) (spec : St) (s0 : VMState) (fname : String)
+    (rest : List Frame)
+    (hs : Frag.okSs stmts = true) (hT : ∀ x ∈ Frag.identsSs stmts, x ∈ T) (hdig : ∀ x ∈ T, NoTrailingDigit x)
+    (hws : Frag.wsSs cs.currModule stmts (fnEnv cs fd.name) = true)
+    (hkey : cleanupKey cs.currModule fd.name ∉ T)
+    (houter : ∀ sc ∈ cs.scopes, ∀ x ∈ T, sc.lookup x = none)
+    (hrel : relocate (fnCode cs fd stmts) = some r)
+    (hcalls : s0.calls = ⟨fname, 0⟩ :: rest) (hfn : findCode code fname = some (renameVars r))
+    (hmp0 : 0 ≤ s0.mp)
+    (hmem : s0.mp + ((cSs cs.currModule stmts (fnEnv cs fd.name)).2.nv : Int) < (lim.memory : Int))
+    (hspec : spec.scopes = [[]]) (hheap : s0.st.heap = spec.heap) :
+    SimFn code lim s0 rest spec (evalStmts cfg fuel stmts spec) :=
+  fn_body_correct' cfg code lim T fuel cs fd stmts r spec s0 fname rest hs hT hdig hws hkey houter hrel hcalls hfn
+    hmp0 hmem hspec hheap
+
+/-- **The VM's driver on a top-level call** (`Core.Run`: poll, then a quantum of instructions).
+Hypotheses of `fn_body_correct`, no caller frame, operand stack within its limit. For every
+quantum at least as large as the number of instructions the call executes — so that no poll
+falls inside it — `run` ends with `ok`, in a state with heap/output, memory pointer and stack as
+at the call, when the specification completes the body; and with the specification's fatal error
+(same kind, message, span) when it ends in one. -/
+theorem fn_run (cfg : Cfg) (code : Code) (lim : Limits) (T : List String) (fuel : Nat)
+    (cs : CState) (fd : FnDef) (stmts : List Stmt) (r : NCode) (spec : St) (s0 : VMState) (fname : String)
+    (hs : Frag.okSs stmts = true) (hT : ∀ x ∈ Frag.identsSs stmts, x ∈ T) (hdig : ∀ x ∈ T, NoTrailingDigit x)
+    (hws : Frag.wsSs cs.currModule stmts (fnEnv cs fd.name) = true)
+    (hkey : cleanupKey cs.currModule fd.name ∉ T)
+    (houter : ∀ sc ∈ cs.scopes, ∀ x ∈ T, sc.lookup x = none)
+    (hrel : relocate (fnCode cs fd stmts) = some r)
+    (hcalls : s0.calls = [⟨fname, 0⟩]) (hfn : findCode code fname = some (renameVars r))
+    (hmp0 : 0 ≤ s0.mp)
+    (hmem : s0.mp + ((cSs cs.currModule stmts (fnEnv cs fd.name)).2.nv : Int) < (lim.memory : Int))
+    (hstack : s0.stack.length ≤ lim.stack) (hcallLim : 1 ≤ lim.callStack)
+    (hspec : spec.scopes = [[]]) (hheap : s0.st.heap = spec.heap) :
+    match evalStmts cfg fuel stmts spec with
+    | (.ok _, _) =>
+      ∃ K, ∀ quantum, K ≤ quantum → ∀ vfuel, ∃ s', run code lim quantum none (vfuel + 1) s0 = .ok s' ∧
+        s'.st = s0.st ∧ s'.mp = s0.mp ∧ s'.stack = s0.stack
+    | (.error (.fatal kd m sp), _) =>
+      ∃ K, ∀ quantum, K ≤ quantum → ∀ vfuel, ∃ s', run code lim quantum none (vfuel + 1) s0 = .fatal kd m sp s' ∧
+        s'.st = s0.st
+    | _ => True :=
+  Sim.fn_run cfg code lim T fuel cs fd stmts r spec s0 fname hs hT hdig hws hkey houter hrel hcalls hfn hmp0 hmem
+    hstack hcallLim hspec hheap
+
+section Example7
+/-- `fn main() { let i = 0; let acc = 0; while i < 5 { if i % 2 == 0 { acc += i; } i += 1; } }` -/
+private def fdL : FnDef := ⟨sp0, "main", [], .null, 0, false, .mk sp0 .null loopEx none⟩
+/-- The compiler state in which pass 2 of `compileProgram` reaches `main`. -/
+private def csF : CState :=
+  { fns := [(("main", "@init"), { name := "@main_@init", code := [] }),
+            (("main", "main"), { name := "@main_main", code := [] })],
+    currFn := "@init", currModule := "main" }
+private def relF : NCode :=
+  (stripLabels (fnCode csF fdL loopEx)).map (resolve (labelIndex (fnCode csF fdL loopEx)))
+private def codeF : Code := [{ name := "@main_main", code := renameVars relF }]
+private def vmF : VMState := { calls := [⟨"@main_main", 0⟩] }
+
+private theorem relocate_fnCode : relocate (fnCode csF fdL loopEx) = some relF := by
+  have h : (relocate (fnCode csF fdL loopEx)).isSome = true := by decide +kernel
+  obtain ⟨r, hr⟩ := Option.isSome_iff_exists.mp h
+  rw [hr, relocate_some _ r hr]
+  rfl
+
+/-- `compileFn` really produces `fnCode …` for `main` (statement instantiated), … -/
+example : (((compileFn 15 fdL).run csF).2.fns.lookup ("main", "main")).map (·.code) =
+    some (fnCode csF fdL loopEx) := by
+  have h := compileFn_frag 13 fdL csF sp0 .null loopEx rfl rfl rfl (by decide +kernel) (by decide +kernel)
+    (by decide +kernel)
+  rw [h.1]
+  exact congrArg (Option.map (·.code)) h.2.1
+
+/-- … and a call of it on the VM — frame `⟨"@main_main", 0⟩`, empty stack, `mp = 0` — runs
+prologue, loop and epilogue and returns (no frames left) with `mp = 0` and an empty stack. -/
+example : ∃ k s', execN codeF {} k vmF = .next s' ∧ s'.calls = [] ∧ s'.mp = 0 ∧ s'.stack = [] := by
+  obtain ⟨fuel, hfuel⟩ : ∃ n : Nat, n = 20 := ⟨20, rfl⟩
+  have h := fn_body_correct { prog := [] } codeF {} TL fuel csF fdL loopEx relF {} vmF "@main_main" []
+    (by decide +kernel) (by decide +kernel) (by decide +kernel) (by decide +kernel) (by decide +kernel)
+    (by decide +kernel) relocate_fnCode rfl (by simp [findCode, codeF]) (by decide) (by decide +kernel) rfl rfl
+  subst hfuel
+  obtain ⟨hok, _⟩ := spec_facts
+  rcases hev : evalStmts { prog := [] } 20 loopEx {} with ⟨res, st'⟩
+  rw [hev] at h hok
+  cases res with
+  | error e => simp [okU] at hok
+  | ok u =>
+    obtain ⟨_, k, s', hk, h1, h2, h3, _⟩ := h
+    exact ⟨k, s', hk, h1, h2, h3⟩
+/-- The same call through the VM's driver: with a quantum large enough `run` answers `ok`. -/
+example : ∃ K, ∀ quantum, K ≤ quantum → ∀ vfuel, ∃ s', run codeF {} quantum none (vfuel + 1) vmF = .ok s' ∧
+    s'.st = vmF.st ∧ s'.mp = 0 ∧ s'.stack = [] := by
+  obtain ⟨fuel, hfuel⟩ : ∃ n : Nat, n = 20 := ⟨20, rfl⟩
+  have h := fn_run { prog := [] } codeF {} TL fuel csF fdL loopEx relF {} vmF "@main_main"
+    (by decide +kernel) (by decide +kernel) (by decide +kernel) (by decide +kernel) (by decide +kernel)
+    (by decide +kernel) relocate_fnCode rfl (by simp [findCode, codeF]) (by decide) (by decide +kernel)
+    (by decide) (by decide) rfl rfl
+  subst hfuel
+  obtain ⟨hok, _⟩ := spec_facts
+  rcases hev : evalStmts { prog := [] } 20 loopEx {} with ⟨res, st'⟩
+  rw [hev] at h hok
+  cases res with
+  | error e => simp [okU] at hok
+  | ok u => exact h
+end Example7
 
 end HmsProofs.C01VM
